@@ -40,6 +40,5 @@ class RXGate(
         self.check_env_matrix(env_matrix)
         a = np.real(env_matrix[0, 0] + env_matrix[1, 1])
         b = np.imag(env_matrix[0, 1] + env_matrix[1, 0])
-        theta = 2 * np.arccos(a / np.sqrt(a ** 2 + b ** 2))
-        theta *= -1 if b < 0 else 1
+        theta = 2 * np.arctan2(b, a)
         return [theta]
